@@ -44,6 +44,12 @@ var cheapMuts = []powMut{
 	{"difficulty/2", func(h, _ *ethtypes.Header) {
 		h.Difficulty = new(big.Int).Rsh(new(big.Int).SetBytes(h.Difficulty), 1).Bytes()
 	}},
+	{"difficulty+2^64", func(h, _ *ethtypes.Header) {
+		h.Difficulty = new(big.Int).Add(new(big.Int).SetBytes(h.Difficulty), new(big.Int).Lsh(big.NewInt(1), 64)).Bytes()
+	}},
+	{"base-fee+2^64", func(h, _ *ethtypes.Header) {
+		h.BaseFee = new(big.Int).Add(new(big.Int).SetBytes(h.BaseFee), new(big.Int).Lsh(big.NewInt(1), 64)).Bytes()
+	}},
 	{"parent-hash/bitflip", func(h, _ *ethtypes.Header) { flip(h.ParentHash, 7) }},
 	{"number+1", func(h, _ *ethtypes.Header) { h.Height.RevisionHeight++ }},
 	{"base-fee+1", func(h, _ *ethtypes.Header) {
